@@ -49,6 +49,7 @@ func vortexJobs(c *mon.Ctx) []job {
 	sisP := [][2]int{{4, 8}, {9, 16}, {6, 16}, {5, 8}} // degree >= 16: Commit hashes 16 columns at a time and reads 16-element blocks of each SIS hash
 	selK := []string{"one", "few", "dups", "many"}
 	var jobs []job
+	jobs = append(jobs, job{"vortex/koalabear/column-hash-paths", 1, func() { columnHashPaths(c) }})
 	idx := 0
 	for _, nc := range cols {
 		for _, rate := range []int{2, 4, 8} {
@@ -345,6 +346,7 @@ func (e *vtxEnv) targeted(st, other *vtxStmt, tag string) {
 			return
 		}
 		noteEffect(ek, true)
+		c.SampleOnce("vortex/"+kind, map[string]any{"parameters": e.cfg.String(), "statement": tag, "forgery": what, "specification checks violated": fails.String()})
 		e.judge("targeted:"+kind, in, true, func() string { return what })
 		c.Class(e.cls + "/targeted/" + kind)
 	}
@@ -419,6 +421,45 @@ func (e *vtxEnv) targeted(st, other *vtxStmt, tag string) {
 				in.Proof.UAlpha[j] = fromE4(toE4(in.Proof.UAlpha[j]).add(v))
 			}
 			try("ualpha-plus-high-degree-word-vanishing-at-x-and-opened-columns", in, []string{"rs"}, nil, "UAlpha += k (X-x) X^(NbColumns-1) prod (X - w^c) over the opened columns")
+		}
+	}
+	// (e') the same in one coordinate only: the factor vanishing at x is the minimal polynomial of x over F_p
+	{
+		distinct := map[int]bool{}
+		for _, cidx := range st.sel {
+			distinct[cidx] = true
+		}
+		if e.cfg.nbCols+3+len(distinct) < N {
+			conj := []e4{st.x, st.x.pow(kbP), st.x.pow(kbP).pow(kbP), st.x.pow(kbP).pow(kbP).pow(kbP)}
+			for coord := 0; coord < 4; coord++ {
+				in := cloneVin(&st.in)
+				k := 1 + e.randBase()%(kbP-1)
+				okBase := true
+				for j := range in.Proof.UAlpha {
+					w := kbPow(s.wN, uint64(j))
+					m := e4{1, 0, 0, 0}
+					for _, cj := range conj {
+						m = m.mul(e4FromBase(w).sub(cj))
+					}
+					if m[1] != 0 || m[2] != 0 || m[3] != 0 {
+						okBase = false
+						break
+					}
+					v := kbMul(kbMul(m[0], k), kbPow(w, uint64(e.cfg.nbCols-1)))
+					for cidx := range distinct {
+						v = kbMul(v, kbSub(w, kbPow(s.wN, uint64(cidx))))
+					}
+					u := toE4(in.Proof.UAlpha[j])
+					u[coord] = kbAdd(u[coord], v)
+					in.Proof.UAlpha[j] = fromE4(u)
+				}
+				if !okBase {
+					c.Inconclusive("%s: minimal polynomial of x has coefficients outside the base field (model arithmetic inconsistent)", e.cls)
+					break
+				}
+				try(fmt.Sprintf("ualpha-coordinate-%d-plus-high-degree-word-vanishing-at-x-and-opened-columns", coord), in, []string{"rs"}, nil,
+					fmt.Sprintf("coordinate %d of UAlpha += k m_x(X) X^(NbColumns-1) prod (X - w^c), m_x the minimal polynomial of x over the base field", coord))
+			}
 		}
 	}
 	// (f) Merkle path node / column entry / column swapped
@@ -548,5 +589,36 @@ func (e *vtxEnv) substitutions(st, other *vtxStmt, tag string) {
 			e.judge("subst:"+gp+":"+k, f, shapePreserving(s.kind, k), func() string { return "field " + s.exact() + " <- " + k })
 			e.c.Class(fmt.Sprintf("%s/subst/%s/%s", e.cls, gp, k))
 		}
+	}
+}
+
+// columnHashPaths: Commit hashes the columns' SIS digests 16 at a time when the code word size is a
+// multiple of 16 and one by one otherwise, the verifier always one by one. Both must give the same
+// leaf, for every ring-SIS degree the constructors accept, or honest proofs cannot verify. (Run
+// here on the exported functions: inside Commit the 16-at-a-time path runs in worker goroutines,
+// where a panic cannot be recovered by the monitor - this is why the parameter grid of this check
+// keeps the ring-SIS degree >= 16.)
+func columnHashPaths(c *mon.Ctx) {
+	rng := gen.New(c.Seed, "c17d/vortex/column-hash-paths")
+	for _, deg := range []int{2, 4, 8, 16, 32, 64, 512} {
+		in := make([]koalabear.Element, 16*deg)
+		for i := range in {
+			in[i].SetUint64(uint64(rng.Intn(kbP)))
+		}
+		var leaves [16]vortex.Hash
+		cls := fmt.Sprintf("sis-degree=%d", deg)
+		c.Class("vortex/koalabear/column-hash-paths/" + cls)
+		if c.Guard("vortex/koalabear/Commit/column-hash-16-at-a-time/panic/"+cls, func() string {
+			return fmt.Sprintf("HashPoseidon2x16(16 SIS digests of %d elements, leaves, %d) as called by Commit when SizeCodeWord %% 16 == 0 (sis.NewRSis(seed, log2(%d), ..) and NewParams accept the parameters)", deg, deg, deg)
+		}, func() { vortex.HashPoseidon2x16(in, leaves[:], deg) }) {
+			continue
+		}
+		ok := true
+		for j := 0; j < 16; j++ {
+			ok = ok && leaves[j] == vortex.HashPoseidon2(in[j*deg:(j+1)*deg])
+		}
+		c.Check("vortex.Commit/column-hash", "vortex/koalabear/Commit/column-hash-16-at-a-time/differs-from-one-by-one/"+cls, ok, func() string {
+			return fmt.Sprintf("HashPoseidon2x16 and HashPoseidon2 disagree on SIS digests of %d elements: the verifier recomputes leaves one by one", deg)
+		})
 	}
 }
